@@ -256,7 +256,7 @@ structure CfgOK (c : Cfg) (sc : SCfg) : Prop where
 def portV (c : Cfg) (bfs : Bool) (v : V) : V := if verGeL c.version 3 0 then v else portB bfs v
 
 /-- how the Spec's ghost flag follows xdis's `bytes_for_s`: in Python 3 bytecode it marks the
-    one place (co_varnames) read with bytes_for_s = False; in Python 2 bytecode it is never set -/
+    places (the name fields: co_names, co_varnames, co_freevars, co_cellvars, co_filename, co_name) read with bytes_for_s = False; in Python 2 bytecode it is never set -/
 def Ctx (c : Cfg) (bfs txt : Bool) : Prop := if verGeL c.version 3 0 then txt = !bfs else txt = false
 
 def RO (c : Cfg) (bfs : Bool) : Option V → V → Prop
@@ -1198,7 +1198,7 @@ theorem code_case (c : Cfg) (sc : SCfg) (hc : CfgOK c sc) (e : Nat) (he : e = er
   simp only [hc.graal, Bool.false_eq_true, if_false]
   refine Lock.seq (hO _ false (ctx_consts c)) ?_
   rintro consts consts' rfl
-  refine Lock.seq (hO _ false (ctx_consts c)) ?_
+  refine Lock.seq (hO false _ (ctx_varnames c)) ?_
   rintro names names' rfl
   -- a filled reference slot means FLAG_REF, hence a 3.4+ stream, where nothing is re-read
   have hflag3 : i.isSome = true → verGeL c.version 3 0 = true := by
@@ -1269,13 +1269,13 @@ theorem code_case (c : Cfg) (sc : SCfg) (hc : CfgOK c sc) (e : Nat) (he : e = er
   · simp only [g311, if_false]
     refine Lock.seq (lock_optObj c sc e fs fm ds dm _ false _ _ (hO false _ (ctx_varnames c)) (portV_empty_tuple c _)) ?_
     rintro varnames varnames' rfl
-    refine Lock.seq (lock_optObj c sc e fs fm ds dm _ _ false _ (hO _ false (ctx_consts c)) (portV_empty_tuple c _)) ?_
+    refine Lock.seq (lock_optObj c sc e fs fm ds dm _ false _ _ (hO false _ (ctx_varnames c)) (portV_empty_tuple c _)) ?_
     rintro freevars freevars' rfl
-    refine Lock.seq (lock_optObj c sc e fs fm ds dm _ _ false _ (hO _ false (ctx_consts c)) (portV_empty_tuple c _)) ?_
+    refine Lock.seq (lock_optObj c sc e fs fm ds dm _ false _ _ (hO false _ (ctx_varnames c)) (portV_empty_tuple c _)) ?_
     rintro cellvars cellvars' rfl
-    refine Lock.seq (hO _ false (ctx_consts c)) ?_
+    refine Lock.seq (hO false _ (ctx_varnames c)) ?_
     rintro filename filename' rfl
-    refine Lock.seq (hO _ false (ctx_consts c)) ?_
+    refine Lock.seq (hO false _ (ctx_varnames c)) ?_
     rintro name name' rfl
     refine Lock.seqEq (lock_first c) (fun first => ?_)
     refine Lock.seq (lock_optObj c sc e fs fm ds dm _ true false _ (hO true false (ctx_code c)) (portV_empty_bytes c)) ?_
